@@ -273,24 +273,34 @@ def deepcopyProfiles (st : LState) (nOrig : Nat) : LState × List Nat :=
     ({ insts := s.insts ++ [{ o with name := s!"{o.name}_{c}" }], copies := s.copies.set i c },
      m ++ [s.insts.length])) (st, [])
 
+/-- `work_profiles[node["work_profile"]]`, or the default profile `Job` builds. -/
+def resolveProfile (origNames : List String) (pmap : List Nat) (nd : NodeD) (st : LState) :
+    Except String (LState × Nat) :=
+  match nd.profile with
+  | some pn =>
+    match findIdx? (· == pn) origNames 0 with
+    | none => .error "KeyError"
+    | some i => .ok (st, pmap.getD i 0)
+  | none =>
+    .ok ({ st with insts := st.insts ++
+              [{ name := s!"{nd.name}_#_work_profile", loading := [], exec := [] }] },
+         st.insts.length)
+
+/-- The `slo` variable after visiting a node (Q1: it is never reset). -/
+def nextSlo (slo : Int) (nd : NodeD) : Int :=
+  if slo = -1 then (match nd.slo with | some s => s | none => slo) else slo
+
 /-- Pass 1 of `load_job_graph`: the jobs (with the leaking `slo` variable). -/
 def loadJobs (origNames : List String) (pmap : List Nat) :
     List NodeD → Int → LState → List Job → Except String (LState × List Job)
   | [], _, st, acc => .ok (st, acc)
-  | nd :: nds, slo, st, acc => do
-    let (st1, pidx) ← match nd.profile with
-      | some pn =>
-        match findIdx? (· == pn) origNames 0 with
-        | none => .error "KeyError"
-        | some i => pure (st, pmap.getD i 0)
-      | none =>
-        pure ({ st with insts := st.insts ++
-                  [{ name := s!"{nd.name}_#_work_profile", loading := [], exec := [] }] },
-              st.insts.length)
-    let slo1 := if slo = -1 then (match nd.slo with | some s => s | none => slo) else slo
-    let job : Job := { name := nd.name, profile := pidx, slo := slo1, cond := nd.cond,
-                       term := nd.term, prob := nd.prob.getD 1000 }
-    loadJobs origNames pmap nds slo1 st1 (acc ++ [job])
+  | nd :: nds, slo, st, acc =>
+    match resolveProfile origNames pmap nd st with
+    | .error e => .error e
+    | .ok (st1, pidx) =>
+      loadJobs origNames pmap nds (nextSlo slo nd) st1
+        (acc ++ [{ name := nd.name, profile := pidx, slo := nextSlo slo nd, cond := nd.cond,
+                   term := nd.term, prob := nd.prob.getD 1000 }])
 
 /-- Pass 2: the edges. -/
 def loadChildren (names : List String) : List NodeD → Except String (List (List Nat))
